@@ -729,7 +729,7 @@ void verif_run(verif::Args const& a, verif::Evidence& ev)
               "pair: (ordered pair of alternatives within L1 or across L1/L2, one of 15 algorithm overloads, source program, destination program, offsets, pre-equalised or not, aliasing or not) -> destination root equal to the "
               "twin root after the concrete algorithm, or std::bad_cast and untouched root for pairs the documentation calls incompatible. value: copy/assignment/equality/recreate semantics. "
               "non-trivial: non-empty view and (transform: non-empty program; pair: every case; value: every case); distinct = all keys but the content seed.";
-    int n = th ? 600000 : 40000;
+    int n = th ? 1500000 : 40000;
     if (C14_PART < 0 || C14_PART == 0)
     verif::rc_search(ev, a, "transform", n, 60, gen_transform, run_transform, [](Case const& c) { return c.get("w") > 0 && c.get("h") > 0 && !c.list("prog").empty(); }, {"alt", "w", "h", "align", "prog", "last", "const"});
     if (C14_PART < 0 || C14_PART == 7)
